@@ -247,7 +247,9 @@ class Ctx(object):
                 if key not in [x["key"] for x in self.known_hits]:
                     self.known_hits.append(k)
                 return
-        if len(self.violations) >= 8:
+        # separate budgets: a record WITH a failing input is never crowded out by ties that merely broke
+        same = [v for v in self.violations if v["found_input"] == found_input]
+        if len(same) >= (8 if found_input else 4):
             return
         rec = {"property": self.pid, "what_no_longer_checks": name, "seed": self.seed,
                "tier": self.tier, "found_failing_input": found_input, "key": key, "case": data,
@@ -313,7 +315,7 @@ class Ctx(object):
             json.dump(ev, f, indent=1, default=str)
         for k in self.known_hits:
             print("KNOWN-FINDING: property=%s %s" % (self.pid, k.get("what", k.get("key"))))
-        for v in self.violations:
+        for v in sorted(self.violations, key=lambda v: not v["found_input"]):      # concrete failing inputs first
             print("VIOLATION property=%s replay=%s%s" % (
                 self.pid, v["replay"], "" if v["found_input"] else " no-failing-input-found"))
         sys.stdout.flush()
